@@ -11,7 +11,7 @@ FAMS = {
     "C02": (["tolerance", "order"], ["tolerance", "order", "big"]),
     "C03": (["tolerance", "crashfn"], ["tolerance", "big", "cont", "crash", "crashfn"]),
     "C04": (["tolerance", "gates", "contq"], ["tolerance", "gates", "cont", "order", "big", "live"]),
-    "C05": (["retry"], ["retry", "retrychk"]),
+    "C05": (["retry", "retryov"], ["retry", "retrychk", "retryov", "retrychkov"]),
     "C06": (["gates"], ["gates", "gates2"]),
     "C07": (["contq", "gates"], ["cont", "gates", "gates2", "live"]),
     "C08": (["order", "retry", "poll"], ["order", "retry", "poll", "tolerance", "gates"]),
@@ -151,7 +151,7 @@ def conformable(trace):
     for i, e in enumerate(trace):
         if e["ev"] == "Crash" and i == 1:
             continue
-        if e["ev"] in ("Crash", "Hang", "ProcDied", "HoldTimeout", "WFail", "Exit") or (e["ev"] == "PStart" and e.get("ov")) or (e["ev"] == "PEnd" and e.get("out") == "overrun"):
+        if e["ev"] in ("Crash", "Hang", "ProcDied", "HoldTimeout", "WFail", "Exit"):
             return False
     return True
 
